@@ -34,7 +34,9 @@ partial def decGoVal (j : Json) : Except String GoVal := do
         let gv ← decGoVal v
         -- an embedded struct is promoted (its fields listed in place) unless its json tag names it
         let named := Tags.namePart (Tags.get (getStrD f "tag") "json") != ""
-        pure (some (getStrD f "n", getBoolD f "embedded" && !named, gv))
+        -- an embedded POINTER to a struct is not flattened by the analysis: it stays a field
+        let isPtr := getStrD v "k" == "ptr"
+        pure (some (getStrD f "n", getBoolD f "embedded" && !named && !isPtr, gv))
       | .error _ => pure none
     let flat := fs.filterMap id |>.flatMap fun (n, emb, gv) =>
       match emb, gv with
